@@ -316,7 +316,8 @@ struct Sys {
 			// a refused arm must leave the pending request (length and id bytes) alone; besides this snapshot the canonical state
 			// carries the context's id bytes, so a silently replaced id is also followed to the next reply by the transport oracle
 			if (memcmp(snapb.data(), cx, dsz)) {
-				if (!getenv("C12_NO_ARM_SNAPSHOT")) fail("refused-arm-changed-reply-data", fmt("mpt_reply_set(%d-byte id %s) on a %d-byte context returned %d but changed the stored request: len %u -> %u, id %s -> %s", len, hex(q.id.data(), len).c_str(), g_idlen, s,
+				bad = true;
+				r.violation(std::string("arm|") + (armed >= 0 ? "armed" : "no-request") + "|refused-arm-changed-reply-data", fmt("idlen=%d target=%s ", g_idlen, g_target ? "set" : "NULL") + history() + ": " + fmt("mpt_reply_set(%d-byte id %s) on a %d-byte context returned %d but changed the stored request: len %u -> %u, id %s -> %s", len, hex(q.id.data(), len).c_str(), g_idlen, s,
 				     (unsigned) snap.len, (unsigned) cx->len, hex(snapb.data() + offsetof(Mirror, val), snap.len).c_str(), hex(cx->val, std::min<size_t>(cx->len, std::max(g_idlen, 4))).c_str()));
 				return true;
 			}
@@ -655,8 +656,8 @@ static int proto_setup(Tier t, const std::string &job)
 	int l = 4, tg = 1;
 	sscanf(job.c_str(), "proto:idlen=%d:target=%d", &l, &tg);
 	g_idlen = l; g_target = tg != 0;
-	// quick: two requests (three for two of the jobs), two metatype references; thorough: four requests, three references
-	g_R = t == Quick ? ((l == 1 || l == 5) && tg ? 3 : 2) : 4; g_maxref = t == Quick ? 2 : 3;
+	// quick: two requests (three for the jobs idlen 1 and 3 with target), two metatype references; thorough: four requests, three references
+	g_R = t == Quick ? ((l == 1 || l == 3) && tg ? 3 : 2) : 4; g_maxref = t == Quick ? 2 : 3;
 	return t == Quick ? 16 : 24;
 }
 static void id_body(Run &r, ACnt &c, const std::string &job, const std::vector<uint64_t> &ids, Ctx &x)
